@@ -214,6 +214,23 @@ def u6_run(carve):
                 pass
             except Exception as e:  # noqa: BLE001
                 bad.append(f"[{be}] group_by(<reference taken before the union>): raises {type(e).__name__}: {str(e)[:100]}")
+            # a verb after the union that needs a subquery, with an alias() inside an operand: refusal or the right rows, no internal error
+            chk("(a | (b >> alias)) >> slice_head(20) >> filter(a > 1)  [refusal permitted]", lambda: a >> pdt.union(b >> pdt.alias("r")) >> pdt.slice_head(20) >> pdt.filter(pdt.C.a > 1), [r for r in ra + rb if r[0] is not None and r[0] > 1])
+            # a None-literal column has every type
+            chk("a.mutate(b=None) | b", lambda: a >> pdt.mutate(b=None) >> pdt.union(b), [(x, None) for x, _ in ra] + rb)
+            # an expression over a constant column of the left operand, built BEFORE the union, is not a constant after it
+            n += 1
+            try:
+                la = a >> pdt.mutate(tag=2)
+                ecast = la.tag.cast(pdt.Float64())
+                cnt2 = la >> pdt.union(b >> pdt.mutate(tag=1)) >> pdt.mutate(e=ecast) >> pdt.group_by(pdt.C.e) >> pdt.summarize(n=pdt.count()) >> pdt.export(pdt.Polars())
+                got = sorted(tuple(r) for r in cnt2.select("e", "n").rows())
+                if got != [(1.0, len(rb)), (2.0, len(ra))]:
+                    bad.append(f"[{be}] e = l.tag.cast(Float64) (before the union); l | r >> mutate(e=e) >> group_by(e) >> summarize(count): {got}; documented {[(1.0, len(rb)), (2.0, len(ra))]}")
+            except (pdt.errors.SubqueryError, pdt.errors.NotSupportedError):
+                pass
+            except Exception as e:  # noqa: BLE001
+                bad.append(f"[{be}] group_by(<cast of a reference taken before the union>): raises {type(e).__name__}: {str(e)[:100]}")
             # a column that is a constant on each side is not a constant of the union (verbs after the union)
             tagged = a >> pdt.mutate(tag=1) >> pdt.union(b >> pdt.mutate(tag=2))
             n += 1
